@@ -91,6 +91,9 @@ func (in *Interp) lowerOf(v Value) Value {
 	case string:
 		return strings.ToLower(x)
 	case *SymStr:
+		if x.Bytes != nil {
+			return in.asciiCase(x, true)
+		}
 		if x.Atom == nil {
 			in.unmodelled("strings.ToLower on a non-atom symbolic string")
 		}
@@ -129,7 +132,75 @@ func (in *Interp) lowerOf(v Value) Value {
 	return nil
 }
 
+// byteTerms returns the bytes of a concrete string or of a byte-vector string.
+func (in *Interp) byteTerms(v Value) ([]*sym.Term, bool) {
+	switch x := v.(type) {
+	case string:
+		out := make([]*sym.Term, len(x))
+		for i := 0; i < len(x); i++ {
+			out[i] = in.B.Const(8, uint64(x[i]))
+		}
+		return out, true
+	case *SymStr:
+		if x.Bytes != nil {
+			return x.Bytes, true
+		}
+	}
+	return nil, false
+}
+
+func isByteStr(v Value) bool {
+	x, ok := v.(*SymStr)
+	return ok && x.Bytes != nil
+}
+
+// mkByteStr: a string value from byte terms (a concrete string if all are constants).
+func (in *Interp) mkByteStr(bs []*sym.Term) Value {
+	conc := make([]byte, 0, len(bs))
+	for _, b := range bs {
+		if !b.IsConst() {
+			return &SymStr{Bytes: append([]*sym.Term{}, bs...)}
+		}
+		conc = append(conc, byte(b.C))
+	}
+	return string(conc)
+}
+
+// mapBytes applies f to every byte (ToLower / ToUpper on ASCII).
+func (in *Interp) asciiCase(v Value, lower bool) Value {
+	bs, _ := in.byteTerms(v)
+	out := make([]*sym.Term, len(bs))
+	lo, hi := uint64('A'), uint64('Z')
+	if !lower {
+		lo, hi = 'a', 'z'
+	}
+	for i, b := range bs {
+		isL := in.B.And(in.B.ULe(in.B.Const(8, lo), b), in.B.ULe(b, in.B.Const(8, hi)))
+		out[i] = in.B.Ite(isL, in.B.BXor(b, in.B.Const(8, 0x20)), b)
+	}
+	return in.mkByteStr(out)
+}
+
+func (in *Interp) byteStrEq(a, b Value) *sym.Term {
+	x, ok1 := in.byteTerms(a)
+	y, ok2 := in.byteTerms(b)
+	if !ok1 || !ok2 {
+		in.unmodelled("comparison of a byte-vector string with another kind of symbolic string")
+	}
+	if len(x) != len(y) {
+		return in.B.False()
+	}
+	cs := make([]*sym.Term, len(x))
+	for i := range x {
+		cs[i] = in.B.Eq(x[i], y[i])
+	}
+	return in.B.And(cs...)
+}
+
 func (in *Interp) symStrEq(a, b Value) *sym.Term {
+	if isByteStr(a) || isByteStr(b) {
+		return in.byteStrEq(a, b)
+	}
 	sa, oka := a.(*SymStr)
 	sb, okb := b.(*SymStr)
 	if oka && sa.Line {
@@ -163,6 +234,14 @@ func (in *Interp) symStrBinop(op token.Token, a, b Value) Value {
 	case token.NEQ:
 		return in.B.Not(in.symStrEq(a, b))
 	case token.ADD:
+		if isByteStr(a) || isByteStr(b) {
+			x, ok1 := in.byteTerms(a)
+			y, ok2 := in.byteTerms(b)
+			if !ok1 || !ok2 {
+				return &SymStr{Tag: "concat"}
+			}
+			return in.mkByteStr(append(append([]*sym.Term{}, x...), y...))
+		}
 		sa, oka := a.(*SymStr)
 		sb, okb := b.(*SymStr)
 		if (oka && sa.Str != nil) || (okb && sb.Str != nil) {
@@ -192,11 +271,35 @@ func (in *Interp) strTerm(v Value) *sym.Term {
 }
 
 func (in *Interp) symStrLen(x *SymStr) Value {
+	if x.Bytes != nil {
+		return in.B.Const(in.WordBits, uint64(len(x.Bytes)))
+	}
 	in.unmodelled("len of a symbolic string")
 	return nil
 }
 
 func (in *Interp) symStrSlice(b *SymStr, x *ssa.Slice, fr *frame) Value {
+	if b.Bytes != nil {
+		lo, hi := 0, len(b.Bytes)
+		if x.Low != nil {
+			n, ok := concreteInt(in.get(fr, x.Low))
+			if !ok {
+				in.unmodelled("symbolic slice bound on a byte-vector string")
+			}
+			lo = int(n)
+		}
+		if x.High != nil {
+			n, ok := concreteInt(in.get(fr, x.High))
+			if !ok {
+				in.unmodelled("symbolic slice bound on a byte-vector string")
+			}
+			hi = int(n)
+		}
+		if lo < 0 || hi > len(b.Bytes) || lo > hi {
+			in.goPanic(fmt.Sprintf("slice bounds out of range [%d:%d] with length %d", lo, hi, len(b.Bytes)))
+		}
+		return in.mkByteStr(b.Bytes[lo:hi])
+	}
 	if b.Line {
 		lo, hi := 0, -1
 		if x.Low != nil {
@@ -258,5 +361,12 @@ func (in *Interp) taggedString(s Slice) Value {
 // bytesOfSym: the bytes of a symbolic string are an opaque buffer that can
 // only be converted back to the string (length and elements are unmodelled).
 func (in *Interp) bytesOfSym(x *SymStr) Value {
+	if x.Bytes != nil {
+		arr := in.newArrayCell(types.Typ[types.Uint8], len(x.Bytes))
+		for i, b := range x.Bytes {
+			arr.Kids[i].V = b
+		}
+		return Slice{Arr: arr, Len: len(x.Bytes), Cap: len(x.Bytes)}
+	}
 	return Slice{Arr: &Cell{T: types.NewArray(types.Typ[types.Uint8], 0), V: x, Name: "symbytes"}, Len: -1, Cap: -1}
 }
